@@ -1215,7 +1215,7 @@ type observation = { o_line : str; o_pos : nat; o_mode : input_mode;
 type config = { c_mode : edit_mode; c_completion : completion_type;
                 c_timeout_none : bool; c_cols : nat; c_tab_stop : nat;
                 c_indent_size : nat; c_prompt_limit : nat; c_show_all : 
-                bool; c_has_helper : bool;
+                bool; c_bell : bool; c_has_helper : bool;
                 c_complete : (str -> nat -> nat * str list);
                 c_hint : (str -> nat -> str option);
                 c_validate : (str -> vresult);
@@ -1390,7 +1390,7 @@ val edit_history_next : uData -> config -> bool -> unit e
 
 val edit_history : uData -> config -> bool -> unit e
 
-val beep : unit e
+val beep : config -> unit e
 
 val hist_of : est -> hist
 
